@@ -49,7 +49,8 @@ RULE = (
     "difference says the output depends on the parameter; distinct = distinct lattice point"
 )
 ASSUMPTIONS = [
-    "CPU, float64, closed-shell RHF, one molecule per differentiated call (finite differences are batched and "
+    "CPU, float64, closed-shell RHF on the main lattice (open-shell UHF only in section `uhf`: Etot and gap, modes 1 and 2, "
+    "leaf tensors, species-wise directions), one molecule per differentiated call (finite differences are batched and "
     "re-done with single-molecule calls in a fresh process before a disagreement is reported)",
     "one fixed generic direction per parameter name (per-atom weights from a fixed table; species-wise weights when "
     "the molecule has degenerate orbitals so that e_mo/gap stay differentiable); a gradient error orthogonal to that "
